@@ -231,3 +231,18 @@ Proof. intros E. apply C02_v2_signed_input_injective in E; try sm. vm_compute in
 Example C02_v1_signed_input_injective_nonvacuous :
   v1_ppre sfx msg foot <> v1_ppre sfx msg [].
 Proof. intros E. apply C02_v1_signed_input_injective in E; try sm. vm_compute in E. discriminate E. Qed.
+
+(* ---- v2 tag tamper (AEAD uniqueness of the tag): the genuine token p_v2 = z 24 ++ msg ++ z 16 with any other
+        16-byte tag, here differing in the last bit only ---- *)
+Example C02_v2_tag_tamper_nonvacuous :
+  v2_local_unseal toy key32 sfx (z 24 ++ msg ++ z 16) foot [] = Ok msg /\
+  v2_local_unseal toy key32 sfx (z 24 ++ msg ++ (z 15 ++ [x01])) foot [] = Err CryptoError.
+Proof.
+  assert (H : v2_local_unseal toy key32 sfx (z 24 ++ msg ++ z 16) foot [] = Ok msg) by (vm_compute; reflexivity).
+  split; [exact H|].
+  apply (C02_v2_tag_tamper toy toy_laws key32 sfx (z 24) msg (z 16) (z 15 ++ [x01]) foot msg);
+    [reflexivity|reflexivity|reflexivity|exact H|vm_compute; discriminate].
+Qed.
+(* the genuine token used above IS what the library's seal produces *)
+Example C02_v2_tag_tamper_nonvacuous_is_sealed : p_v2 = z 24 ++ msg ++ z 16.
+Proof. vm_compute. reflexivity. Qed.
